@@ -4,27 +4,27 @@ They say: returns a str, modifies nothing.  That is all C05 needs from them (ids
 their text).  C06 / C10 strengthen some of them in their own modules.
 """
 from pyvc.api import contract
+import spec.c06_spec  # noqa: F401
+import spec.names_spec  # noqa: F401
 from contracts.schema import TYPE_ANY
 
 ARGS = 'ref:ArgumentList'
 
 contract('MatlabWrapper._wrap_args', params={'args': ARGS}, returns='str', loops={0: {'inv': []}})
-contract('MatlabWrapper._wrap_variable_arguments', params={'args': ARGS, 'wrap_datatypes': 'bool'}, returns='str',
-         loops={0: {'inv': []}})
-contract('MatlabWrapper._wrap_list_variable_arguments', params={'args': ARGS}, returns='str', loops={0: {'inv': []}})
-contract('MatlabWrapper._wrap_method_check_statement', params={'args': ARGS}, returns='str', loops={0: {'inv': []}})
 contract('FormatMixin._format_type_name',
-         params={'type_name': 'ref:Typename|str', 'separator': 'str', 'include_namespace': 'bool',
+         params={'self': 'ref:MatlabWrapper', 'type_name': 'ref:Typename', 'separator': 'str', 'include_namespace': 'bool',
                  'is_constructor': 'bool', 'is_method': 'bool'},
-         returns='str', assumed=True, note='type-only contract; not yet verified')
+         returns='str', under=['wf_tn_plain(type_name)'], raises={'ValueError': 'is_constructor and is_method'},
+         result_is='ml_type_name(type_name, separator, include_namespace, is_constructor, is_method)',
+         loops={0: {'inv': ['formatted_type_name == ml_ns_prefix(type_name.namespaces, _i, separator)'
+                            " if name not in ('Matrix', 'Vector', 'Point2', 'Point3') else formatted_type_name == ''"]},
+                1: {'inv': ["','.join(templates) == ml_args_join(type_name.instantiations, _i, include_namespace, is_constructor, is_method)",
+                            'len(templates) == _i'], 'types': {'templates': 'list[str]'}},
+                2: {'inv': ['formatted_type_name == ml_head(type_name, separator, include_namespace, is_constructor, is_method) + ml_args_cat(type_name.instantiations, _i, separator, is_constructor, is_method)']}})
 contract('FormatMixin._format_return_type',
          params={'return_type': 'ref:ReturnType', 'include_namespace': 'bool', 'separator': 'str'}, returns='str')
 contract('FormatMixin._format_class_name', params={'instantiated_class': 'ref:InstantiatedClass', 'separator': 'str'},
          returns='str', assumed=True, note='type-only contract; not yet verified')
-contract('MatlabWrapper._format_varargout', params={'return_type': 'ref:ReturnType', 'return_type_formatted': 'str'},
-         returns='str')
-
-# ---- default-argument expansion and grouping: type-level contracts (C06 strengthens them)
 METHODISH = 'ref:Constructor|ref:Method|ref:StaticMethod|ref:GlobalFunction'
 
 
@@ -65,3 +65,5 @@ contract('MatlabWrapper.wrap_properties_block', params={'class_name': 'str', 'in
 contract('MatlabWrapper.wrap_enum', params={'enum': 'ref:Enum'}, returns='tuple[str,str]',
          assumed=True, note='type-level here; enumerator numbering is a C10 clause')
 contract('FormatMixin._clean_class_name', params={'instantiated_class': 'ref:InstantiatedClass'}, returns='str')
+
+import contracts.c06  # noqa: E402,F401  (the C06 contracts of the guard / marshalling emitters)
